@@ -110,7 +110,7 @@ static void shape_tree(void) {
 /* ---- shape 2: statically initialised mutexes first used by several threads at once; spin lock; once; keys ---- */
 static pthread_mutex_t smx[3]; static long scount[3];
 static pthread_spinlock_t spin; static long spincount;
-static pthread_once_t once_ctl; static int once_runs; static volatile int once_done; static int once_early;
+static pthread_once_t once_ctl; static int once_runs; static volatile int once_done; static int once_early; static int key_stale;
 static pthread_key_t keys[3]; static long dtor_sum[3]; static pthread_mutex_t dmx = PTHREAD_MUTEX_INITIALIZER;
 static void pt_yield(uint64_t h);
 /* the init routine takes its time (yields in the middle): every caller of pthread_once, not only the one
@@ -122,6 +122,10 @@ static void *counter_thread(void *arg) {
   long t = (long)arg;
   RC(pthread_once(&once_ctl, once_fn));
   if (!once_done) __sync_fetch_and_add(&once_early, 1);
+  /* a new thread reads NULL under every key -- also after it stored under ANOTHER key (lazy-init idiom), and also
+     when it runs on a recycled thread record whose previous user stored values under these keys */
+  RC(pthread_setspecific(keys[0], (void *)(t + 1)));
+  if (pthread_getspecific(keys[2]) != 0 || ((t & 1) == 0 && pthread_getspecific(keys[1]) != 0)) __sync_fetch_and_add(&key_stale, 1);
   for (long r = 0; r < P[T_ROUNDS]; r++) {
     uint64_t h = mix(P[T_SEED], 500 + t * 64 + r);
     int m = (int)(h % 3);
@@ -145,15 +149,18 @@ static void shape_counters(void) {
   int n = (int)P[T_NTHREADS]; if (n > 32) n = 32; if (n < 1) n = 1;
   static const pthread_mutex_t init = PTHREAD_MUTEX_INITIALIZER;
   for (int m = 0; m < 3; m++) { smx[m] = init; scount[m] = 0; }
-  static const pthread_once_t oinit = PTHREAD_ONCE_INIT; once_ctl = oinit; once_runs = 0; once_done = 0; once_early = 0;
+  static const pthread_once_t oinit = PTHREAD_ONCE_INIT; once_ctl = oinit; once_runs = 0; once_done = 0; once_early = 0; key_stale = 0;
   spincount = 0; memset(dtor_sum, 0, sizeof dtor_sum);
   RC(pthread_spin_init(&spin, PTHREAD_PROCESS_PRIVATE));
   RC(pthread_key_create(&keys[0], dtor0)); RC(pthread_key_create(&keys[1], dtor1)); RC(pthread_key_create(&keys[2], 0));
   pthread_t th[32]; long jsum = 0;
-  for (long i = 0; i < n; i++) RC(pthread_create(&th[i], 0, counter_thread, (void *)i));
-  for (long i = 0; i < n; i++) { void *r = 0; RC(pthread_join(th[i], &r)); jsum += (long)r; }
-  LOG("counters %ld %ld %ld total=%ld spin=%ld once=%d once_early=%d joinsum=%ld dtor=%ld,%ld,%ld\n", scount[0], scount[1], scount[2],
-      scount[0] + scount[1] + scount[2], spincount, once_runs, once_early, jsum, dtor_sum[0], dtor_sum[1], dtor_sum[2]);
+  /* two waves: the threads of the second wave run on thread records (and key storage) recycled from the first */
+  for (int wave = 0; wave < 2; wave++) {
+    for (long i = 0; i < n; i++) RC(pthread_create(&th[i], 0, counter_thread, (void *)i));
+    for (long i = 0; i < n; i++) { void *r = 0; RC(pthread_join(th[i], &r)); jsum += (long)r; }
+  }
+  LOG("counters %ld %ld %ld total=%ld spin=%ld once=%d once_early=%d stale_key_reads=%d joinsum=%ld dtor=%ld,%ld,%ld\n", scount[0], scount[1], scount[2],
+      scount[0] + scount[1] + scount[2], spincount, once_runs, once_early, key_stale, jsum, dtor_sum[0], dtor_sum[1], dtor_sum[2]);
   for (int k = 0; k < 3; k++) RC(pthread_key_delete(keys[k]));
   RC(pthread_spin_destroy(&spin));
   for (int m = 0; m < 3; m++) RC(pthread_mutex_destroy(&smx[m]));
